@@ -5,6 +5,7 @@ from harness import compart
 
 class H(Harness):
     ID = 'C07'
+    ANCHOR_FILES = ['epydemic/compartmentedmodel.py', 'epydemic/sir_model.py', 'epydemic/sis_model.py', 'epydemic/sirs_model.py', 'epydemic/seir_model.py', 'epydemic/sir_model_fixed_recovery.py', 'epydemic/sis_model_fixed_recovery.py', 'epydemic/sir_model_variable_infection.py', 'epydemic/sivr_model.py', 'epydemic/opinion_model.py', 'epydemic/vaccinate_model.py']
     TIE_IMPORT = 'From EpyV Require Import Model.Kernel Model.Loci Model.Compart Tie.Compart.\nOpen Scope Q_scope.'
     CHECK_FN = 'EpyV.Tie.Compart.check_case'
     VO_TARGETS = ['Properties/C07.vo', 'Tie/Compart.vo']
